@@ -5,7 +5,9 @@
   * setup_done is sent to every simulator exactly once and ALL of these are awaited before any simulator
     process exists;
   * exactly one sim_process(world, sim, until, adjusted rt_factor, rt_strict, lazy_stepping) per simulator is
-    created as a task, stored in sim.task, and all of them are awaited.
+    created as a task, stored in sim.task, and all of them are awaited;
+  * every simulator's rt_start is defined before the processes run (a process advances the progress of all
+    simulators, reading their rt_start, possibly before their own process has started).
 
 The set of simulators is an abstract collection (arbitrary size, arbitrary iteration order; loop rule with a
 ghost `seen` set).  Jobs (coroutine objects / tasks) are terms of a datatype that carries the callee's
@@ -88,12 +90,19 @@ class RunModel:
         self.tr = z3.Real("time_resolution")
         self.empty = z3.K(self.Job, z3.IntVal(0))
 
+        def perf_counter(it, node):
+            it.p.ghost["clock_reads"] += 1
+            return it.p.fresh("clock", z3.RealSort())
+        sess.builtins["perf_counter"] = Builtin("perf_counter", perf_counter)
+
     def reset(self, p):
         p.ghost["world"] = {}
         p.ghost["created"] = self.empty
         p.ghost["task_of"] = p.fresh("task_of0", z3.ArraySort(self.Sim, self.Job))
         p.ghost["task_cnt"] = z3.K(self.Sim, z3.IntVal(0))
         p.ghost["gathers"] = []
+        p.ghost["rt_init"] = z3.K(self.Sim, z3.BoolVal(False))     # sim.rt_start has been assigned
+        p.ghost["clock_reads"] = 0
 
     # ---- hooks
     def getattr(self, it, obj, name, node):
@@ -132,6 +141,9 @@ class RunModel:
         g = it.p.ghost
         if isinstance(obj, WorldR):
             g["world"] = dict(g["world"], **{name: v})
+            return True
+        if is_z3(obj) and obj.sort() == self.Sim and name == "rt_start":
+            g["rt_init"] = z3.Store(g["rt_init"], obj, True)
             return True
         if is_z3(obj) and obj.sort() == self.Sim and name == "task":
             if not (is_z3(v) and v.sort() == self.Job):
@@ -191,6 +203,7 @@ class RunModel:
         g["created"] = it.p.fresh("created", z3.ArraySort(self.Job, z3.IntSort()))
         g["task_of"] = it.p.fresh("task_of", z3.ArraySort(self.Sim, self.Job))
         g["task_cnt"] = it.p.fresh("task_cnt", z3.ArraySort(self.Sim, z3.IntSort()))
+        g["rt_init"] = it.p.fresh("rt_init", z3.ArraySort(self.Sim, z3.BoolSort()))
 
     def await_value(self, it, v, e, env):
         if isinstance(v, GatherR):
@@ -216,6 +229,8 @@ class RunModel:
         return NotImplemented
 
     def resolve_import(self, dotted):
+        if dotted == "time.perf_counter":
+            return self.s.builtins["perf_counter"]
         if dotted == "asyncio":
             def gather(it, node, *a, _star=None):
                 if a or not isinstance(_star, JobList):
@@ -294,6 +309,7 @@ class Run(Contract):
         return {"list_holds_one_process_per_simulator_seen": z3.ForAll([j], v.processes.arr[j] == z3.If(
                     And(self.is_expected_proc(j), v.seen[J.p_sim(j)]), 1, 0)),
                 "nothing_else_created": z3.ForAll([j], g["created"][j] == created0[j] + v.processes.arr[j]),
+                "rt_start_defined_for_every_simulator_with_a_process": z3.ForAll([s], Implies(v.seen[s], g["rt_init"][s])),
                 "task_recorded_once": z3.ForAll([s], And(
                     g["task_cnt"][s] == z3.If(v.seen[s], 1, 0), Implies(v.seen[s], g["task_of"][s] == self.proc_of(s))))}
 
@@ -333,6 +349,9 @@ class Run(Contract):
         out["one_process_per_simulator_with_the_adjusted_arguments_all_awaited"] = And(
             z3.ForAll([j], l1[j] == z3.If(self.is_expected_proc(j), 1, 0)),
             z3.ForAll([j], g["created"][j] == l0[j] + l1[j]), z3.ForAll([j], c1[j] == g["created"][j]))
+        # C17 (no internal error in real-time mode): once the first process runs it may advance the progress of EVERY simulator
+        # (advance_progress reads sim.rt_start), also of those whose own process has not started yet
+        out["rt_start_defined_for_every_simulator_before_the_processes_run"] = z3.ForAll([s], g["rt_init"][s])
         out["task_recorded_in_sim_task"] = z3.ForAll([s], And(g["task_cnt"][s] == 1, g["task_of"][s] == self.proc_of(s)))
         return out
 
@@ -345,10 +364,13 @@ class Run(Contract):
             for tr in (1.0, 0.25):
                 for n in (0, 1, 3):
                     yield {"rt_factor_arg": rt, "time_resolution_arg": tr, "nsims": n}
+        yield {"real_time_run_with": 2}
         yield {"rt_factor_arg": None, "time_resolution_arg": 1.0, "nsims": 3, "setup_fails": 1}
         yield {"rt_factor_arg": None, "time_resolution_arg": 1.0, "nsims": 3, "process_fails": 1}
 
     def native_call(self, m):
+        if "real_time_run_with" in m:
+            return _replay_rt_run(m["real_time_run_with"])
         if "nsims" not in m:
             return True, "symbolic counter-models of run() are not replayed (the native search is)"
         import asyncio
@@ -409,6 +431,51 @@ class Run(Contract):
         finally:
             scheduler.sim_process = real
             w.loop.close()
+
+
+def _replay_rt_run(n):
+    """a complete real-time run of n unconnected, instantly answering in-process simulators must not fail with an internal
+    error (C17)"""
+    import sys
+    import types
+    import warnings
+    import mosaik
+    import mosaik_api_v3
+    warnings.simplefilter("ignore")
+    meta = {"api_version": "3.0", "type": "time-based", "models": {"M": {"public": True, "params": [], "attrs": ["x"]}}}
+
+    class Sim(mosaik_api_v3.Simulator):
+        def __init__(self):
+            super().__init__(meta)
+
+        def init(self, sid, time_resolution=1.0, **kw):
+            return self.meta
+
+        def create(self, num, model, **kw):
+            return [{"eid": f"e{i}", "type": model} for i in range(num)]
+
+        def step(self, time, inputs, max_advance):
+            return time + 1
+
+        def get_data(self, outputs):
+            return {}
+    mod = types.ModuleType("_rt_sims")
+    mod.Sim = Sim
+    sys.modules["_rt_sims"] = mod
+    w = mosaik.World({"D": {"python": "_rt_sims:Sim"}}, skip_greetings=True)
+    try:
+        for _ in range(n):
+            w.start("D").M()
+        try:
+            w.run(until=2, rt_factor=0.05, print_progress=False)
+            err = None
+        except Exception as e:  # noqa: BLE001
+            err = e
+    finally:
+        if not w.loop.is_closed():
+            w.shutdown()
+    return err is None, f"real-time run (rt_factor=0.05, until=2) of {n} instantly answering in-process simulators: " + \
+        ("completed" if err is None else f"failed with {type(err).__name__}: {err}")
 
 
 class PacingFromCap(Lemma):
